@@ -574,6 +574,14 @@ func (in *Interp) equal(a, b Value, t types.Type) *term.T {
 		if x.T == nil || y.T == nil {
 			return in.M.Bool(x.T == nil && y.T == nil)
 		}
+		_, xn := x.T.(*nativeType)
+		_, yn := y.T.(*nativeType)
+		if xn || yn {
+			if x.T != y.T {
+				return in.M.False
+			}
+			return in.equal(x.V, y.V, nil)
+		}
 		if !types.Identical(x.T, y.T) {
 			return in.M.False
 		}
